@@ -7,6 +7,7 @@ import (
 	"path/filepath"
 	"sort"
 	"strings"
+	"sync"
 	"syscall"
 	"time"
 )
@@ -77,6 +78,12 @@ type Disk struct {
 	RereadChanged int // same path read twice with different content
 	lastStatOK    map[string]bool
 	lastRead      map[string]string
+
+	// mu serialises calls from several simulated goroutines. It adds a
+	// happens-before edge between two goroutines that both touch the disk
+	// (the real os calls do not); accepted: file access is rare and the state
+	// reached through it is per parse.
+	mu sync.Mutex
 }
 
 // FS is the disk of the current run (nil or !Active: real file system).
@@ -232,6 +239,8 @@ func (f fileInfo) IsDir() bool        { return f.dir }
 func (f fileInfo) Sys() interface{}   { return nil }
 
 func (d *Disk) stat(op, name string) (os.FileInfo, error) {
+	d.mu.Lock()
+	defer d.mu.Unlock()
 	p := d.abs(name)
 	f, has := d.nextFault()
 	if has {
@@ -268,6 +277,8 @@ func (d *Disk) stat(op, name string) (os.FileInfo, error) {
 
 // content returns what a read of the path yields, applying a planned fault.
 func (d *Disk) content(op, errOp, name string) ([]byte, error) {
+	d.mu.Lock()
+	defer d.mu.Unlock()
 	p := d.abs(name)
 	f, has := d.nextFault()
 	fault := FNone
